@@ -2,11 +2,11 @@ module verifharness
 
 go 1.19
 
-require github.com/jsightapi/jsight-api-go-library v0.0.0
-
 require (
-	github.com/jsightapi/jsight-schema-go-library v1.0.1-0.20221003140029-c68c810f065f // indirect
-	github.com/lucasjones/reggen v0.0.0-20200904144131-37ba4fa293bb // indirect
+	github.com/jsightapi/jsight-api-go-library v0.0.0
+	github.com/jsightapi/jsight-schema-go-library v1.0.1-0.20221003140029-c68c810f065f
 )
+
+require github.com/lucasjones/reggen v0.0.0-20200904144131-37ba4fa293bb // indirect
 
 replace github.com/jsightapi/jsight-api-go-library => /repo
